@@ -215,7 +215,7 @@ func (in *Interp) intrinsic(fn *ssa.Function, args []Val) (Val, bool) {
 		return in.s.Implies(args[0].(*Term), args[1].(*Term)), true
 	case name == "verifB2I":
 		return in.s.Ite(args[0].(*Term), BVConst(1, 64), BVConst(0, 64)), true
-	case name == "verifIteInt":
+	case name == "verifIteInt", name == "verifIteU32":
 		return in.s.Ite(args[0].(*Term), args[1].(*Term), args[2].(*Term)), true
 	}
 	return nil, false
@@ -465,6 +465,35 @@ func findStub(in *Interp, fn *ssa.Function) StubFn {
 					return math.Log2(x)
 				}
 				return math.Trunc(x)
+			}
+		}
+	case "errors":
+		if name == "As" {
+			// errors.As without an Unwrap chain: the error matches when its dynamic type is the target's element type
+			// (or implements it, for an interface target); the errors built by the fmt stubs wrap nothing
+			return func(in *Interp, fn *ssa.Function, a []Val) Val {
+				e, _ := a[0].(IfaceV)
+				tg, _ := a[1].(IfaceV)
+				pt, ok := tg.T.(*types.Pointer)
+				if !ok {
+					in.progPanic("errors: target must be a non-nil pointer")
+				}
+				if e.T == nil {
+					return BoolConst(false)
+				}
+				el := pt.Elem()
+				if it, isI := el.Underlying().(*types.Interface); isI {
+					if types.Implements(e.T, it) {
+						in.store(tg.V.(Ptr), e)
+						return BoolConst(true)
+					}
+					return BoolConst(false)
+				}
+				if types.Identical(e.T, el) {
+					in.store(tg.V.(Ptr), e.V)
+					return BoolConst(true)
+				}
+				return BoolConst(false)
 			}
 		}
 	case "sort":
